@@ -331,7 +331,7 @@ def rand_cfg(rnd, focus="all"):
                             var("v"), lit(("num", "7")), field("n"), ICTX_INDEX, ICTX_INDEX, ICTX_FIDX])
             sels.append({"name": cps(nm), "e": e})
         # a later selection, the sort key or the group key may refer to an earlier selection by name: /A/
-        if len(sels) >= 2 and rnd.random() < 0.25:
+        if len(sels) >= 2 and rnd.random() < 0.25 and sum(1 for y in sels[:-1] if y["name"] == sels[0]["name"]) == 1:
             sels[-1] = {"name": sels[-1]["name"], "e": {"op": "sel", "name": sels[0]["name"]}}
         c["selects"] = sels
     if rnd.random() < 0.3:
@@ -344,7 +344,10 @@ def rand_cfg(rnd, focus="all"):
         if rnd.random() < 0.1:
             c["sorts"].append({"e": ICTX_INDEX, "desc": rnd.random() < 0.7})        # the record ordinal as the last key: ties in reverse arrival order
         if c["selects"] and rnd.random() < 0.15:
-            c["sorts"][0] = {"e": {"op": "sel", "name": rnd.choice(c["selects"])["name"]}, "desc": rnd.random() < 0.5}
+            # (a name that is given to two selections is not referred to: which of the two /name/ means is not documented)
+            once = [x for x in c["selects"] if sum(1 for y in c["selects"] if y["name"] == x["name"]) == 1]
+            if once:
+                c["sorts"][0] = {"e": {"op": "sel", "name": rnd.choice(once)["name"]}, "desc": rnd.random() < 0.5}
     if focus in ("all", "limit", "group", "stop") and rnd.random() < (0.5 if focus == "all" else 0.9):
         c["skip"] = rnd.choice([0, 0, 1, 2, 3, 6])
         c["take"] = rnd.choice([-1, 0, 1, 2, 3, 5, 6, 9, 12, 20]) if focus != "stop" else rnd.choice([0, 1, 2, 3, 5])
